@@ -61,6 +61,21 @@ def sim_plan_st(draw, tier, ctx=None, want_absent_arms=False, max_bandits=3):
     decisions = draw(st.lists(st.sampled_from(pool), min_size=n, max_size=n))
     rewards = draw(st.lists(gen.reward_st(fam), min_size=n, max_size=n))
     contexts = draw(gen.contexts_st(n, d, draw(st.sampled_from(["int", "small"])))) if contextual_data else None
+    if contexts is not None:
+        # Radius bandits: two times in three the radius is a realised distance between two data rows under the
+        # bandit's metric (rows exactly on the boundary, neighbourhoods neither empty nor everything)
+        for b in bandits:
+            c = b["config"]
+            if c["np"] and c["np"][0] == "Radius" and "radius" in c["np"][1] and draw(st.integers(0, 2)):
+                from scipy.spatial.distance import cdist
+                try:
+                    dm = cdist(np.asarray(contexts, dtype=float), np.asarray(contexts, dtype=float),
+                               metric=c["np"][1]["metric"])
+                except Exception:
+                    continue
+                vals = sorted({float(v) for v in dm.ravel() if np.isfinite(v) and v > 0})
+                if vals:
+                    c["np"][1]["radius"] = vals[draw(st.integers(0, len(vals) - 1))]
     n_test = draw(st.integers(1, max(1, n - max(min_train, 2))))
     test_size = (n_test - 0.5) / n
     exact_count = True
